@@ -28,7 +28,9 @@ RULE = (
     "offset; a scalar-valued first operand may be combined with a vector-valued second function) and 3 points "
     "on a grid of quarters given as float64, int64 or float32 arrays; helpers (FunctionRestriction, LinearCompositeFunction, "
     "Concatenate, first/second-order Taylor polynomials, ConvexLinearApprox) are applied on top of such "
-    "trees; chains of MDOLinearFunction.__neg__/offset/restrict/normalize on dense and sparse coefficients; "
+    "trees; chains of MDOLinearFunction.__neg__/offset/restrict (frozen indexes = random permutation of a subset)/normalize "
+    "and reassignments of its public coefficients / value_at_zero on dense and sparse coefficients; reassignments of "
+    "MDOQuadraticFunction.quad_coeffs / linear_coeffs, alone and under a function composed beforehand; "
     "aggregation functions (max, KS lower/upper, IKS, (positive) sum of squares with indices, scalar and "
     "array scale, rho) and the ConstraintAggregation discipline.  Every case is compared with the harness "
     "forward-mode reference (value and Jacobian), operands are evaluated before and after and the arrays "
@@ -64,6 +66,9 @@ ASSUMPTIONS = [
     "(reciprocal variable undefined); with negative partials only definition-independent facts are required: value and "
     "gradient agree with the operand at the expansion point, and away from it (and from 0) the Jacobian is the derivative "
     "(complex step through the function itself) of what the function evaluates",
+    "only attributes with a public setter are reassigned (MDOLinearFunction.coefficients / value_at_zero, "
+    "MDOQuadraticFunction.quad_coeffs / linear_coeffs), with arrays of the original shape; a function composed before a "
+    "reassignment may follow the new or the old coefficients, its Jacobian must follow the same ones as its value",
     "ConstraintAggregation is used with one constraint name (with several names all but the first output are empty)",
 ]
 
@@ -214,18 +219,25 @@ def helper_cases(draw):
 
 @st.composite
 def linear_cases(draw):
-    n = draw(st.integers(1, 4))
+    n = draw(st.sampled_from([1, 2, 3, 3, 4, 4, 5]))
     m = draw(st.integers(1, 3))
     c3 = st.integers(-3, 3)
     ops = []
     for _ in range(draw(st.integers(1, 4))):
-        kind = draw(st.sampled_from(["neg", "offset", "restrict", "normalize", "normalize"]))
-        if kind == "neg":
+        kind = draw(st.sampled_from(["neg", "offset", "restrict", "restrict", "normalize", "normalize", "set_coefficients", "set_value_at_zero"]))
+        if kind == "set_coefficients":
+            # reassignment of the public attribute (same shape, cut to the current number of inputs)
+            ops.append({"op": kind, "A": draw(_mat(m, 5, c3))})
+        elif kind == "set_value_at_zero":
+            ops.append({"op": kind, "b": draw(_lst(c3, m)), "number": draw(st.booleans())})
+        elif kind == "neg":
             ops.append({"op": "neg"})
         elif kind == "offset":
             ops.append({"op": "offset", "v": draw(st.sampled_from(NUMS)) if draw(st.booleans()) else draw(_lst(st.sampled_from(NUMS), m))})
         elif kind == "restrict":
-            ops.append({"op": "restrict", "idx": draw(st.lists(st.integers(0, 7), min_size=1, max_size=3)), "vals": draw(_lst(st.integers(-8, 8), 3))})
+            # frozen indexes: a random permutation of a subset (taken modulo the current number of inputs, in this order)
+            k = draw(st.sampled_from([1, 2, 2, 3, 3, 4]))
+            ops.append({"op": "restrict", "idx": list(draw(st.permutations(list(range(8)))))[:k], "vals": draw(_lst(st.integers(-8, 8), 4))})
         else:
             # a design space over the current inputs: variable sizes (cut modulo), per-component bounds
             comps = [
@@ -236,7 +248,25 @@ def linear_cases(draw):
                         "comps": comps, "int_var": draw(st.integers(0, 5)), "names": draw(st.sampled_from([["x", "y", "z", "t"], ["ab", "a", "b", "abc"]]))})
     return {
         "n": n, "m": m, "A": draw(_mat(m, n, c3)), "b": draw(_lst(c3, m)), "b_number": draw(st.booleans()),
-        "sparse": draw(st.booleans()), "ops": ops, "points": draw(_points(4)),
+        "sparse": draw(st.booleans()), "ops": ops, "points": draw(_points(5)),
+    }
+
+
+@st.composite
+def quadratic_cases(draw):
+    """An MDOQuadraticFunction whose public coefficient attributes are reassigned after construction."""
+    n = draw(st.integers(1, 3))
+    c3 = st.integers(-3, 3)
+    ops = []
+    for _ in range(draw(st.integers(1, 3))):
+        if draw(st.booleans()):
+            ops.append({"op": "set_quad", "Q": draw(_mat(n, n, st.integers(-2, 2)))})
+        else:
+            ops.append({"op": "set_linear", "b": draw(_lst(c3, n))})
+    return {
+        "n": n, "Q": draw(_mat(n, n, st.integers(-2, 2))), "b": draw(st.one_of(st.none(), _lst(c3, n))), "c": draw(c3), "ops": ops,
+        "wrap": draw(st.sampled_from(["none", "plus", "times", "neg", "over"])), "other": draw(leaves(1, n, positive=True, flat=True)),
+        "points": draw(_points(n)),
     }
 
 
@@ -917,7 +947,15 @@ def case_linear(p, ctx):
         before_a = f.coefficients.toarray() if hasattr(f.coefficients, "toarray") else f.coefficients.copy()
         before_b = f.value_at_zero.copy()
         prev = f
-        if kind == "neg":
+        if kind == "set_coefficients":
+            a = np.array(op["A"], dtype=float)[:, : a.shape[1]]
+            f.coefficients = csr_array(a) if p["sparse"] else a.copy()
+            before_a = a.copy()
+        elif kind == "set_value_at_zero":
+            b = np.full(m, float(op["b"][0])) if op["number"] else np.array(op["b"], dtype=float)
+            f.value_at_zero = float(op["b"][0]) if op["number"] else b.copy()
+            before_b = b.copy()
+        elif kind == "neg":
             f = -f
             a, b = -a, -b
         elif kind == "offset":
@@ -935,6 +973,18 @@ def case_linear(p, ctx):
             vals = grid(op["vals"][: len(idx)])
             f = f.restrict(np.array(idx, dtype=int), vals)
             active = [i for i in range(n_cur) if i not in idx]
+            # the restriction is the original function on the slice: frozen values in the caller's order
+            for pt in p["points"]:
+                x_full = np.empty(n_cur)
+                x_full[active] = grid(pt)[: len(active)]
+                x_full[idx] = vals
+                s_full = float(max(1.0, np.max(np.abs(a)), np.max(np.abs(b)))) * 4 * n_cur
+                whole = norm_val(prev.evaluate(x_full), m)
+                part = norm_val(f.evaluate(x_full[active]), m)
+                ctx.check(whole is not None and part is not None and close(part, whole, TOL * s_full), "linear_restrict",
+                          f"restrict(frozen_indexes={idx}, frozen_values={vals!r}) evaluates to {part!r}, the original function on the slice to {whole!r}")
+            if len(idx) >= 2 and idx != sorted(idx):
+                classes.append("linear_restrict_unsorted_frozen_indexes")
             b = b + a[:, idx] @ vals
             a = a[:, active]
         else:
@@ -982,6 +1032,60 @@ def case_linear(p, ctx):
     if m >= 2 and len(classes) >= 2 and first is not f:
         ctx.nontriv(("linear", p))
     ctx.sample({"oracle": "linear", "case": p})
+
+
+# =========================================================================== oracle: reassigned quadratic coefficients
+def case_quadratic(p, ctx):
+    """quad_coeffs and linear_coeffs have public setters: after a reassignment value and gradient follow the
+    new coefficients; a function composed before the reassignment stays the derivative of what it evaluates."""
+    n = p["n"]
+    node = {"k": "quad", "m": 1, "Q": p["Q"], "b": p["b"], "c": p["c"]}
+    env = Env()
+    f = build(node, n, env)
+    other_node = p["other"]
+    wrap = p["wrap"]
+    h, tree_of = None, None
+    if wrap != "none":
+        other = build(other_node, n, env)
+        h = {"plus": lambda: f + other, "times": lambda: f * other, "neg": lambda: -f, "over": lambda: f / other}[wrap]()
+
+        def tree_of(q):
+            if wrap == "neg":
+                return {"k": "neg", "a": q}
+            return {"k": "op", "op": {"plus": "+", "times": "*", "over": "/"}[wrap], "a": q, "b": other_node}
+
+    ctx.cls("quadratic_wrap_" + wrap)
+    for op in p["ops"]:
+        old = dict(node)
+        if op["op"] == "set_quad":
+            node = dict(node, Q=op["Q"])
+            f.quad_coeffs = np.array(op["Q"], dtype=float)
+        else:
+            node = dict(node, b=op["b"])
+            f.linear_coeffs = np.array(op["b"], dtype=float)
+        ctx.cls("quadratic_" + op["op"])
+        for pt in p["points"]:
+            x = grid(pt)
+            mag = Mag()
+            v, j = ref_eval(node, x, mag)
+            check_value(ctx, "reassigned_coefficients", f, x, 1, v, TOL * mag.v, f"MDOQuadraticFunction after {op['op']}")
+            check_jac(ctx, "reassigned_coefficients", f, x, 1, n, j, TOL * mag.v, f"MDOQuadraticFunction after {op['op']}")
+            if h is not None:
+                # the composed function follows either the new or the old coefficients; its Jacobian must follow the same ones
+                mag_new, mag_old = Mag(), Mag()
+                v_new, j_new = ref_eval(tree_of(node), x, mag_new)
+                v_old, j_old = ref_eval(tree_of(old), x, mag_old)
+                tol = TOL * max(mag_new.v, mag_old.v)
+                got_v = norm_val(h.evaluate(x), 1)
+                got_j = norm_jac(h.jac(x), 1, n)
+                ctx.check(got_v is not None and got_j is not None, "reassigned_coefficients", "composed function: unexpected shapes")
+                follows_new, follows_old = close(got_v, v_new, tol), close(got_v, v_old, tol)
+                ctx.check(follows_new or follows_old, "reassigned_coefficients",
+                          f"function composed ({wrap}) before {op['op']}: value {got_v!r} matches neither the new {v_new!r} nor the old {v_old!r} coefficients", x=x)
+                ctx.check((follows_new and close(got_j, j_new, tol)) or (follows_old and close(got_j, j_old, tol)), "reassigned_coefficients",
+                          f"function composed ({wrap}) before {op['op']}: Jacobian {got_j!r} is not the derivative {(j_new if follows_new else j_old)!r} of what it evaluates", x=x)
+    ctx.nontriv(("quadratic", p))
+    ctx.sample({"oracle": "quadratic", "case": p})
 
 
 # =========================================================================== oracle: aggregations
@@ -1162,7 +1266,7 @@ def case_discipline(p, ctx):
 
 ORACLES = {
     "algebra": case_algebra, "symbolic": case_symbolic, "helpers": case_helpers, "linear": case_linear,
-    "aggregation": case_aggregation, "discipline": case_discipline,
+    "aggregation": case_aggregation, "discipline": case_discipline, "quadratic": case_quadratic,
 }
 
 
@@ -1170,6 +1274,7 @@ def run(ctx):
     ctx.drive("algebra", algebra_cases(), case_algebra, quick=1000, thorough=8000)
     ctx.drive("symbolic", algebra_cases(max_depth=3, max_n=2, max_m=2), case_symbolic, quick=60, thorough=300)
     ctx.drive("helpers", helper_cases(), case_helpers, quick=800, thorough=6000)
-    ctx.drive("linear", linear_cases(), case_linear, quick=250, thorough=2500)
+    ctx.drive("linear", linear_cases(), case_linear, quick=300, thorough=2500)
+    ctx.drive("quadratic", quadratic_cases(), case_quadratic, quick=150, thorough=1500)
     ctx.drive("aggregation", aggregation_cases(), case_aggregation, quick=500, thorough=4000)
     ctx.drive("discipline", discipline_cases(), case_discipline, quick=200, thorough=2000)
